@@ -65,9 +65,11 @@ func parseOTF(file Resource, offset uint32, relativeOffset bool) (*Loader, error
 	}
 
 	pr := &Loader{
-		file:   file,
-		tables: make(map[Tag]tableSection, numTables),
-		Type:   flavor,
+		file: file,
+		// (the directory may repeat one tag: do not trust its length to size the map)
+		tables:           make(map[Tag]tableSection),
+		Type:             flavor,
+		directoryEntries: int(numTables),
 	}
 
 	for i := 0; i < int(numTables); i++ {
